@@ -1237,3 +1237,137 @@ func ruleNoUnguardedDivision(c *Ctx, rule string) {
 	ob.OK(fmt.Sprintf("%d function(s) of ast, bytecode, ds, algo and libvore examined, %d integer division(s)", nfn, ndiv))
 	r.Floor(rule, "functions examined for integer division", nfn, 150)
 }
+
+// ---------------------------------------------------------------------------------------------
+// C08.R15: no nil pointer dressed up as an error.
+//
+// A nil *ParseError stored in a variable of type `error` is a non-nil error whose Error() dereferences nil: Compile answers an
+// error for a correct program and the caller's err.Error() panics. Every conversion of a pointer to the `error` interface, in the
+// packages between source text and program, must convert a pointer that is not nil: a fresh allocation, the result of a function
+// all of whose returns are such, or a value tested against nil on the way.
+func ruleNoTypedNilError(c *Ctx, rule string) {
+	r := c.R
+	memo := map[*ssa.Function]map[int]int{} // 1 = never nil, 2 = may be nil (witness), 3 = unknown
+	var nonNil func(v ssa.Value, depth int) (int, string)
+	resultKind := func(fn *ssa.Function, idx int, depth int) (int, string) {
+		if m, ok := memo[fn]; ok {
+			if k, ok := m[idx]; ok {
+				return k, ""
+			}
+		} else {
+			memo[fn] = map[int]int{}
+		}
+		memo[fn][idx] = 3
+		if len(fn.Blocks) == 0 {
+			return 3, ""
+		}
+		kind, why := 1, ""
+		instrsOf(fn, func(in ssa.Instruction) {
+			ret, ok := in.(*ssa.Return)
+			if !ok || idx >= len(ret.Results) {
+				return
+			}
+			k, w := nonNil(ret.Results[idx], depth+1)
+			if k > kind {
+				kind, why = k, w
+				if w == "" && k == 2 {
+					why = c.pos(ret.Pos()) + " returns nil"
+				}
+			}
+		})
+		memo[fn][idx] = kind
+		return kind, why
+	}
+	nonNil = func(v ssa.Value, depth int) (int, string) {
+		if depth > 6 {
+			return 3, ""
+		}
+		switch x := v.(type) {
+		case *ssa.Alloc, *ssa.FieldAddr, *ssa.IndexAddr, *ssa.MakeMap, *ssa.MakeSlice, *ssa.MakeChan, *ssa.MakeClosure, *ssa.Function, *ssa.Global:
+			return 1, ""
+		case *ssa.Const:
+			if x.Value == nil {
+				return 2, ""
+			}
+			return 1, ""
+		case *ssa.Phi:
+			kind, why := 1, ""
+			for _, e := range x.Edges {
+				if e == ssa.Value(x) {
+					continue
+				}
+				if k, w := nonNil(e, depth+1); k > kind {
+					kind, why = k, w
+				}
+			}
+			return kind, why
+		case *ssa.Call:
+			if sc := x.Call.StaticCallee(); sc != nil && c.isRepoFn(sc) {
+				return resultKind(sc, 0, depth)
+			}
+		case *ssa.Extract:
+			if call, ok := x.Tuple.(*ssa.Call); ok {
+				if sc := call.Call.StaticCallee(); sc != nil && c.isRepoFn(sc) {
+					return resultKind(sc, x.Index, depth)
+				}
+			}
+		case *ssa.ChangeType:
+			return nonNil(x.X, depth+1)
+		}
+		return 3, ""
+	}
+	n := 0
+	for _, pkg := range []string{"ast", "bytecode", "libvore"} {
+		for _, fn := range c.SrcFuncs(pkg) {
+			instrsOf(fn, func(in ssa.Instruction) {
+				mi, ok := in.(*ssa.MakeInterface)
+				if !ok || !types.Identical(mi.Type(), types.Universe.Lookup("error").Type()) {
+					return
+				}
+				if _, isPtr := mi.X.Type().Underlying().(*types.Pointer); !isPtr {
+					return
+				}
+				n++
+				kind, why := nonNil(mi.X, 0)
+				if kind == 1 {
+					return
+				}
+				// tested against nil on the way?
+				for _, l := range domConds(fn, mi.Block()) {
+					cmp, ok := l.Cond.(*ssa.BinOp)
+					if !ok || (cmp.Op != token.NEQ && cmp.Op != token.EQL) {
+						continue
+					}
+					var other ssa.Value
+					if cmp.X == mi.X {
+						other = cmp.Y
+					} else if cmp.Y == mi.X {
+						other = cmp.X
+					}
+					if other == nil || !isNilConst(other) {
+						continue
+					}
+					if (cmp.Op == token.NEQ) == l.Pol {
+						return
+					}
+				}
+				pos := mi.Pos()
+				if !pos.IsValid() {
+					pos = mi.X.Pos()
+				}
+				if !pos.IsValid() {
+					pos = fn.Pos()
+				}
+				ob := r.Ob(rule, fmt.Sprintf("%s: the %s turned into an error is not nil", fnName(fn), types.TypeString(mi.X.Type(), shortQual)), c.pos(pos))
+				if kind == 2 {
+					ob.Bad("the pointer " + exprStr(mi.X) + " can be nil (" + why + ") and is stored as an `error` without a test: the error is non-nil although nothing failed, a correct program is rejected and Error() on it dereferences nil")
+				} else {
+					ob.Und("cannot tell whether " + exprStr(mi.X) + " is nil when it is turned into an error")
+				}
+			})
+		}
+	}
+	ob := r.Ob(rule, "pointers converted to the error interface between source text and program", "")
+	ob.OK(fmt.Sprintf("%d conversion(s) examined", n))
+	r.Floor(rule, "pointer-to-error conversions examined", n, 20)
+}
